@@ -105,6 +105,15 @@ def make_case(ctx, rng):
     # read-group ids are numbers assigned per file: the id that belongs to one sample in the first file belongs to
     # another sample in the second one (ids only mean something inside their own file)
     opts["rg_clash"] = nsamples > 1 and rng.random() < (0.7 if opts["nbam"] == 2 else 0.3)
+    # unphased heterozygous input calls written in descending allele order (1/0): legal VCF, pysam keeps the order
+    opts["desc_gt"] = []
+    if rng.random() < 0.4:
+        for s_ in sc.samples:
+            for c_ in sc.chroms:
+                for i_ in range(len(sc.variants[c_])):
+                    a_, b_ = sc.haps[s_][c_][i_]
+                    if a_ != b_ and rng.random() < 0.4:
+                        opts["desc_gt"].append([s_, c_, i_])
     return sc, reads, opts
 
 
@@ -121,7 +130,11 @@ def rg_id_map(sc, opts, f):
 
 def run_case(ctx, sc, reads, opts, wd):
     synth.write_fasta(sc, os.path.join(wd, "ref.fa"))
-    synth.write_vcf(sc, os.path.join(wd, "in.vcf"))
+    override = {}
+    for s_, c_, i_ in opts.get("desc_gt") or []:
+        hi, lo = sorted(sc.haps[s_][c_][i_], reverse=True)
+        override[(s_, c_, i_)] = f"{hi}/{lo}"
+    synth.write_vcf(sc, os.path.join(wd, "in.vcf"), gt_override=override or None)
     nbam = opts.get("nbam", 1)
     bams = []
     for f in range(nbam):
@@ -367,6 +380,11 @@ def do_runs(ctx, specs):
             if opts.get("nbam", 1) == 2:
                 ctx.tally("runs_with_read_group_id_meaning_another_sample_in_the_other_file")
         ctx.tally("read_groups_per_sample", opts.get("rg_per_sample", 1))
+        if opts.get("desc_gt"):
+            ctx.tally("runs_with_descending_unphased_input_genotypes")
+            ctx.tally("input_calls_written_1/0", len(opts["desc_gt"]))
+            if opts["tag"] == "HP":
+                ctx.tally("runs_with_descending_input_genotypes_and_tag_HP")
         ctx.tally("runs_with_mapq0_option", 1 if opts.get("mapq0") else 0)
         ctx.tally("runs_with_ignore_read_groups", 1 if opts.get("ignore_rg") else 0)
         ctx.tally("runs_with_only_snvs", 1 if opts["only_snvs"] else 0)
